@@ -66,6 +66,32 @@ def _writes(repo, attr, classes=("Process", "Popen")):
     return out
 
 
+def publish_conditions(repo, A):
+    """Conditions, beyond the recycled verdict itself, under which is_running()
+    publishes the PID to process_iter()'s refresh set: facts that hold at
+    `_pids_reused.add(self.pid)` but not already where the verdict is stored.
+    Must be empty: whether some iteration has cached the object is not knowable
+    there (the cache is published when the generator ends)."""
+    ir = repo.func("psutil", "Process.is_running")
+    cfg = A.cfg(ir)
+    adds = [c for c in calls_in(ir.node) if isinstance(c.func, ast.Attribute)
+            and c.func.attr == "add" and dotted(c.func.value) == "_pids_reused"]
+    stores = [n for st in ast.walk(ir.node) if isinstance(st, ast.Assign)
+              and any(dotted(t) == "self._pid_reused" for t in st.targets)
+              for n in cfg.nodes_of(st)]
+    base = set()
+    for n in stores:
+        base |= set(facts(cfg, n))
+    out = []
+    for c in adds:
+        for n in cfg.owners(c):
+            for f in facts(cfg, n):
+                if f in base or f == ("truthy", "self._pid_reused", True):
+                    continue
+                out.append(f)
+    return sorted(set(map(str, out)))
+
+
 def run(ctx):
     repo = Repo(ctx.repo)
     A = Analysis(repo)
@@ -276,11 +302,15 @@ def run(ctx):
         ("truthy", "self._pid_reused", True) in facts(cfg, n)
         and dotted(c.args[0]) in ("self.pid", "self._pid")
         for c in adds for n in cfg.owners(c))
+    extra = publish_conditions(repo, A)
+    if good and extra:
+        good = False
     if good:
         ctx.ok("C02.R4", "publish-reused", sample="_pids_reused.add(self.pid) under self._pid_reused")
     else:
         ctx.fail("C02.R4", "publish-reused", ir.file, ir.node.lineno, ir.qual,
-                 "a recycled PID is no longer published to process_iter()'s refresh set")
+                 "a recycled PID is no longer published to process_iter()'s refresh set"
+                 + (f": the publication also depends on {extra}" if extra else ""))
     early = False
     for n in cfg.nodes:
         if n.kind == "return" and isinstance(n.stmt.value, ast.Constant) \
@@ -360,6 +390,20 @@ def run(ctx):
                         if all(("truthy", "self._pid_reused", True) in facts(cfgr, n)
                                for n in cfgr.nodes_of(st)):
                             inh = True
+                    # a zombie is still in the process table: is_running() stays True
+                    # for it, so the latch may not be set on a path that goes on to
+                    # report ZombieProcess
+                    zcfg = A.cfg(fi)
+                    zr = [n for n in zcfg.nodes if n.kind == "raise"
+                          and isinstance(n.stmt.exc, ast.Call)
+                          and dotted(n.stmt.exc.func) == "ZombieProcess"]
+                    if inh and any(zcfg.path_exists(a, b) for a in zcfg.nodes_of(st) for b in zr):
+                        ctx.fail("C02.R4", key + ":zombie", fi.file, st.lineno, fi.qual,
+                                 f"`{norm_stmt(st)}` is followed, on some path, by `raise "
+                                 f"ZombieProcess`: the object is latched as gone although its "
+                                 f"process is a zombie, still listed - is_running() answers "
+                                 f"False for ever while equal objects answer True")
+                        continue
                     if inh and dotted(t.value) == "self":
                         ctx.ok("C02.R4", key, sample=f"{fi.qual}: {norm_stmt(st)} in "
                                f"except NoSuchProcess/ProcessLookupError")
